@@ -49,6 +49,10 @@ pub fn release(point: &str) {
     released().notify_waiters();
 }
 
+pub fn is_held(point: &str) -> bool {
+    HELD_POINTS.lock().unwrap().iter().any(|p| p == point)
+}
+
 pub async fn sched(point: &str) {
     loop {
         let notified = released().notified();
@@ -57,4 +61,20 @@ pub async fn sched(point: &str) {
         }
         notified.await;
     }
+}
+
+/// Write requests handed to a `LogPersisterTask` and not yet carried out (no-wait confirmation): the
+/// harness waits for 0 instead of guessing from the clock when the background writes have finished.
+static PENDING_WRITES: AtomicI64 = AtomicI64::new(0);
+
+pub fn write_queued() {
+    PENDING_WRITES.fetch_add(1, Ordering::SeqCst);
+}
+
+pub fn write_done() {
+    PENDING_WRITES.fetch_sub(1, Ordering::SeqCst);
+}
+
+pub fn pending_writes() -> i64 {
+    PENDING_WRITES.load(Ordering::SeqCst)
 }
